@@ -1,4 +1,44 @@
-//! lv_conc: concurrency protocol (C10). Skeleton.
+//! lv_conc: the concurrency protocol of one table (C10).
+//!
+//!   lv_conc run <suite> --seed N --tier quick|thorough --out file.jsonl      (case protocol)
+//!   lv_conc replay <suite> --input '<sexp>'
+//!   lv_conc list
+//!   lv_conc child <dir> '<case sexp>'      internal: one case = one database lifetime in its own process
+mod dbenv;
+mod judge;
+mod sched;
+mod stress;
+mod suites;
+mod sync;
+
+use lvharness::sx::Sx;
+
+fn child(dir: &str, case: &str) {
+    use std::io::Write;
+    let case = Sx::parse(case).expect("bad case sexp");
+    let path = std::path::PathBuf::from(dir);
+    std::fs::create_dir_all(&path).unwrap();
+    let outs = match case.tag() {
+        "sched" => sched::run(&case, &path),
+        "stress" => stress::run(&case, &path),
+        t => panic!("unknown case kind {}", t),
+    };
+    let stdout = std::io::stdout();
+    let mut o = stdout.lock();
+    for out in outs {
+        writeln!(o, "OUT {}", out.to_sx()).unwrap();
+    }
+    writeln!(o, "END").unwrap();
+    o.flush().unwrap();
+    // the database may be wedged: never wait for it
+    std::process::exit(0);
+}
+
 fn main() {
-    lvharness::cli_main(vec![]);
+    let args: Vec<String> = std::env::args().collect();
+    if args.len() >= 4 && args[1] == "child" {
+        child(&args[2], &args[3]);
+        return;
+    }
+    suites::cli(suites::all());
 }
